@@ -18,6 +18,9 @@ struct Ctx<'a> {
     none_justified: u64,
     edge_skipped: u64,
     max_err: f64,
+    /// the even and odd reports of the previous point (another place, so another content)
+    prev: Option<(AirbornePosition, AirbornePosition)>,
+    n: u64,
 }
 
 fn one(c: &mut Ctx, lat: f64, lon: f64, class: &'static str) {
@@ -85,17 +88,42 @@ fn one(c: &mut Ctx, lat: f64, lon: f64, class: &'static str) {
             c.r.violation("C04:same-parity-some", format!("({lat},{lon}) {w}: same-parity pair gave ({}, {})", p.latitude, p.longitude), json!({"lat": lat, "lon": lon, "order": w}));
         }
     }
+    // ... also when the two reports differ: the previous point's report of that parity, and the same place reported
+    // with another altitude and type code
+    c.n += 1;
+    let alt = |yz: u32, xz: u32, odd: bool| {
+        let me = frames::me_airborne(9 + (c.n % 10) as u8, 0, 0, frames::ac12_from_n(100 + (c.n % 1500) as u16), 0, odd as u8, yz, xz);
+        AirbornePosition::try_from(&me[..]).expect("harness: airborne ME must parse")
+    };
+    let mut pairs = vec![(alt(e.yz, e.xz, false), me.clone(), "even,even(other altitude)"), (mo.clone(), alt(o.yz, o.xz, true), "odd,odd(other altitude)")];
+    if let Some((pe, po)) = c.prev.take() {
+        pairs.push((pe.clone(), me.clone(), "even,even(other place)"));
+        pairs.push((me.clone(), pe, "even,even(other place)"));
+        pairs.push((po, mo.clone(), "odd,odd(other place)"));
+    }
+    for (a, b, w) in &pairs {
+        c.r.evaluations += 1;
+        match guarded(|| airborne_position(a, b)) {
+            Ok(Some(p)) => c.r.violation(&format!("C04:same-parity-some:{}", if w.contains("place") { "other-place" } else { "other-altitude" }), format!("({lat},{lon}) {w}: a same-parity pair of different reports gave ({}, {})", p.latitude, p.longitude), json!({"lat": lat, "lon": lon, "order": w})),
+            Err((loc, msg)) => c.r.violation(&format!("C04:panic:{}", short_loc(&loc)), format!("airborne_position panicked on a same-parity pair at ({lat},{lon}) {w}: {}", msg_class(&msg)), json!({"lat": lat, "lon": lon, "order": w})),
+            Ok(None) => c.r.class("same-parity:different-reports:none"),
+        }
+    }
+    c.prev = Some((me, mo));
     c.r.class(class);
 }
 
 pub fn run(a: &Args, r: &mut Report) {
-    r.rule = "true point -> independent encoder (even and odd) -> real airborne_position in both orders + same-parity pairs. Points: area-uniform, latitude-uniform, dense +-0.01 deg sweeps of all 58 NL transition latitudes in both hemispheres, multiples of 6 and 360/59 deg, poles, equator, lon 0 / -180 / just below 180. distinct = distinct (even,odd,order) code tuples decoded within 10 m".into();
+    r.rule = "true point -> independent encoder (even and odd) -> real airborne_position in both orders + same-parity pairs (the same report twice, the same place with another altitude and type code, the previous point's report of that parity). Points: area-uniform, latitude-uniform, dense +-0.01 deg sweeps of all 58 NL transition latitudes in both hemispheres, multiples of 6 and 360/59 deg, poles, equator, lon 0 / -180 / just below 180. distinct = distinct (even,odd,order) code tuples decoded within 10 m".into();
     r.assumptions.push("samples whose recovered latitude lies within 1e-7 deg of an NL transition are not judged for the None/Some clause (table vs closed-form NL rounding); 87 deg exactly, which the even lattice hits and the standard defines (NL = 2), is judged".into());
     let tr = geo::transitions();
-    let mut c = Ctx { r, tr: tr.clone(), nl_seen: [[0; 60]; 2], some: 0, none_justified: 0, edge_skipped: 0, max_err: 0.0 };
+    let mut c = Ctx { r, tr: tr.clone(), nl_seen: [[0; 60]; 2], some: 0, none_justified: 0, edge_skipped: 0, max_err: 0.0, prev: None, n: 0 };
     if let Some(p) = &a.replay {
         let v: serde_json::Value = serde_json::from_str(&std::fs::read_to_string(p).unwrap()).unwrap();
-        one(&mut c, v["replay"]["lat"].as_f64().unwrap(), v["replay"]["lon"].as_f64().unwrap(), "replay");
+        // a neighbour first, so that the "previous point" pairs exist as in the run
+        let (la, lo) = (v["replay"]["lat"].as_f64().unwrap(), v["replay"]["lon"].as_f64().unwrap());
+        one(&mut c, (la + 1.234).clamp(-90.0, 90.0), lo * 0.5 + 3.21, "replay-neighbour");
+        one(&mut c, la, lo, "replay");
         return;
     }
     // the one transition the lattice hits exactly
